@@ -259,6 +259,20 @@ def finish(prop, rep, gate):
     return rep.finish(gate)
 
 
+def plant_cache_siblings(case, rng):
+    """foreign files next to the cache file, with the names a careless implementation might use for its own
+    temporary files"""
+    cache = case.get('cache', 'cache.gz')
+    d, _, base = cache.rpartition('/')
+    taken = set(n[0] for n in case['tree'])
+    for suffix in rng.sample(['.tmp', '.bak', '~', '.new', '.lock', '.old', '.part', '.swp'], 3):
+        for name in (base + suffix, '.' + base + suffix):
+            p = (d + '/' if d else '') + name
+            if p not in taken and rng.random() < 0.7:
+                case['tree'] = case['tree'] + [[p, 'file', 'foreign' + suffix, 120]]
+                taken.add(p)
+
+
 def run_hist_prop(prop, tier, salt, n_quick, n_thorough, families=gen.SCENARIOS, per_family=(25, 600),
                   prof=gen.DEFAULT_PROFILE, extra_cases=None, unit_tie=None, **kw):
     rep = core.Report(prop, tier)
@@ -277,6 +291,8 @@ def run_hist_prop(prop, tier, salt, n_quick, n_thorough, families=gen.SCENARIOS,
             c['spell'] = core.seed() * 7919 + i
         if not str(c.get('seed', '')).startswith('corpus:') and (prop == 'C07' or i % 4 == 1):
             c['callee_mutates'] = True     # the functions edit their (copied) arguments in place
+        if prop in ('C03', 'C12', 'C02') and not str(c.get('seed', '')).startswith('corpus:') and i % 3 == 0:
+            plant_cache_siblings(c, random.Random(core.seed() * 131 + i))
     explore(prop, tier, rep, cases)
     if unit_problems and not rep.violations:
         # a unit-level model and the code disagree and the histories exhibit no failing input
@@ -296,7 +312,10 @@ RICH_ARGS = dict(gen.DEFAULT_PROFILE, args=[0, 1, 1.0, True, False, None, 'x', '
 RICH_RETS = dict(gen.DEFAULT_PROFILE, rets=['acc', 'const', 'const', 'const'])
 
 
-def check_C01(tier): return run_hist_prop('C01', tier, 1, 700, 40000)
+def check_C01(tier):
+    # plus every argument pair of the identity family (a changed argument always shows up; an equal one never does)
+    return run_hist_prop('C01', tier, 1, 700, 40000,
+                         extra_cases=lambda t, ds: gen.gen_scenario_cases(core.seed() * 31 + 101, budget(t, 130, 1200), ds, [gen.scen_identity]))
 def check_C02(tier):
     return run_hist_prop('C02', tier, 2, 700, 40000, p_fail=0.5, families=gen.SCENARIOS + [gen.scen_cache_subdir])
 def check_C03(tier):
